@@ -20,6 +20,7 @@ type Ctx struct {
 	ronly int64
 	nilA  *nilAnalysis
 	typImm int
+	wantBnd bool
 }
 
 func newCtx(p *Program, prop, tier string) *Ctx {
